@@ -162,10 +162,12 @@ func (c *caseRun) seqExec(x cmd) []cmd {
 		return nil
 	}
 	if ret != "ok" {
-		// the environment refused to start a valid command (fork failure under load …): not a
-		// statement about the supervisor; give the case up without writing the step
 		c.st.Note(fmt.Sprintf("case %s: Exec of a valid command failed (%s); case abandoned", c.id, ret))
 		c.aborted = true
+		if ret != "envfail" {
+			// refused although the machine could have started it: the step is written (the model says ok)
+			c.line(fmt.Sprintf("exec %d ok %s %d %d %d %s", x.name, x.kind, x.code, x.sig, x.delay, x.out), "ret="+ret)
+		}
 		return nil
 	}
 	c.st.Inc("kind:" + x.kind)
@@ -251,7 +253,7 @@ func (c *caseRun) seqExit(x cmd) {
 func (c *caseRun) seqTerminate(x cmd) []cmd {
 	target := c.latest[x.name]
 	t0 := c.now()
-	err, blocked := guarded(func() error {
+	err, blocked := guardedFor(termGuard, func() error {
 		return c.sup.Terminate(context.Background(), &model.TerminateRequest{Name: c.nameStr(x.name), Domain: "runtime"})
 	})
 	t1 := c.now()
@@ -338,7 +340,8 @@ func (c *caseRun) seqKill(x cmd) []cmd {
 	}
 	c.line(fmt.Sprintf("kill %d %s %s %s", x.name, cls, dies, x.dl), fmt.Sprintf("ret=%s ev=%s", ret, ev))
 	group, aliveAfter := "u", "u"
-	if target != nil && target.pid != 0 && ret == "ok" {
+	if target != nil && target.pid != 0 && ret == "ok" && aliveBefore == "1" {
+		// only for a process that was alive a moment ago: the number of a long dead group may be in use again
 		group = strconv.Itoa(len(waitGroupDead(target.pid, groupGrace)))
 	}
 	if liveBefore && ret != "ok" && !blocked {
@@ -385,7 +388,7 @@ func (c *caseRun) seqForeign(x cmd) {
 			return c.sup.Kill(context.Background(), &model.KillRequest{Name: name, Domain: "other", Deadline: time.Now().Add(-time.Second)})
 		})
 	case "terminate":
-		err, blocked = guarded(func() error {
+		err, blocked = guardedFor(termGuard, func() error {
 			return c.sup.Terminate(context.Background(), &model.TerminateRequest{Name: name, Domain: "other"})
 		})
 	default:
